@@ -376,6 +376,43 @@ def guard(P, fn_qual, rel, a_rx, b_rx=None, err=None, dominates_rx=None, _depth=
             if hr.sites and not hr.violations:
                 hr.sites = ['%s -> helper %s' % (fn['qual'], x) for x in hr.sites]
                 return hr
+    if not found and b_rx is not None and not dominates_rx:
+        # `opt.is_some_and(|x| a != x)` / `iter.any(|x| a != x)`: the comparison sits in a closure of F and F fails on the closure's
+        # verdict. The guard is the outer one (its error), the relation is the closure's (either polarity: `all(==)` and `any(!=)`).
+        outer = [g for g in gs if g.rel in ('truth', 'not') and '{closure' in g.lhs]
+        if outer:
+            from .guards import CMP
+            for k in P.closures_of(fn['key']):
+                cb = P.body(P.fns[k])
+                gx2 = GuardExtractor(cb, resolve_upvars=True)
+                for d in cb.defs.get(0, []):
+                    rl = None
+                    if d[0] == 'st' and d[1]['k'] == 'bin' and d[1]['op'] in CMP:
+                        rl = (CMP[d[1]['op']], gx2.o.op_str(d[1]['a']), gx2.o.op_str(d[1]['b']))
+                    elif d[0] == 'st' and d[1]['k'] == 'use' and d[1]['o']['k'] in ('copy', 'move') and not d[1]['o']['pl']['p']:
+                        rl = gx2.cond_of_local(d[1]['o']['pl']['l'])
+                    elif d[0] == 'call':
+                        nm = callee_path(d[1])
+                        m_ = re.search(r'PartialEq::(eq|ne)$|PartialOrd::(lt|le|gt|ge)$', nm)
+                        if m_:
+                            r0 = {'eq': '==', 'ne': '!=', 'lt': '<', 'le': '<=', 'gt': '>', 'ge': '>='}[nm.rsplit('::', 1)[1]]
+                            rl = (r0, gx2.o.op_str(d[1]['args'][0]), gx2.o.op_str(d[1]['args'][1]))
+                    if not rl or rl[0] not in ('==', '!=', '<', '<=', '>', '>='):
+                        continue
+                    from .guards import NEG, SWAP
+                    cname = '{closure:%s}' % k.split('::')[-1]
+                    for g in outer:
+                        if cname not in g.lhs:
+                            continue
+                        whole = g.lhs + ' ' + rl[1] + ' ' + rl[2]
+                        for rel_ in (rl[0], NEG[rl[0]]):
+                            ok1 = rel_ == rel and re.search(a_rx, rl[1] + ' ' + g.lhs) and re.search(b_rx, rl[2] + ' ' + g.lhs)
+                            ok2 = SWAP.get(rel_) == rel and re.search(a_rx, rl[2] + ' ' + g.lhs) and re.search(b_rx, rl[1] + ' ' + g.lhs)
+                            if ok1 or ok2:
+                                if err and err not in g.errs:
+                                    continue
+                                r.site('%s: %s with %s %s %s in %s @%s' % (fn['qual'], g.text()[:90], rl[1][:40], rel_, rl[2][:40], cname, g.ln))
+                                return r
     if not found:
         near = [g for g in gs if re.search(a_rx, g.lhs + ' ' + g.rhs)]
         r.bad('guard-missing', '`%s` has no guard that fails when [%s] %s [%s]; guards on that operand now: %s'
